@@ -68,6 +68,12 @@ func c09BudgetSpent() bool {
 
 func costDecode(entry string, b []byte) (val any, enc func() []byte, depth int, err error) {
 	switch {
+	case entry == "v4relay":
+		r := &dhcpv4.RelayOptions{}
+		if e := r.FromBytes(b); e != nil {
+			return nil, nil, 0, e
+		}
+		return r, r.ToBytes, 0, nil
 	case entry == "v4":
 		p, e := dhcpv4.FromBytes(b)
 		if e != nil {
@@ -318,6 +324,10 @@ func c09CpuNow() time.Duration {
 // process also pays one-time initialisations (fmt and error-wrapping caches,
 // lazily built tables), which are not a cost of the input.
 func c09MeasureOnce(entry string, b []byte) costMeasure {
+	if strings.HasPrefix(entry, "once:") {
+		// history measurements: exactly this call, after whatever came before it
+		return c09MeasureRaw(entry[5:], b)
+	}
 	r := c09MeasureRaw(entry, b)
 	if len(b) <= 4096 {
 		if r2 := c09MeasureRaw(entry, b); r2.AllocAll < r.AllocAll {
